@@ -110,7 +110,48 @@ def summary():
     print(open(os.path.join(V, 'seeded', 'SUMMARY.md')).read())
 
 
+def retest(only=None):
+    """Regression of the checks: every kept seeded change is applied, one at a time, to ONE scratch
+    worktree of /repo's HEAD and the quick check of the property it breaks must report it."""
+    import glob
+
+    wt = '/tmp/wt_retest'
+    sh(f'git -C /repo worktree remove --force {wt}')
+    rc, o = sh(f'git -C /repo worktree add -q --detach {wt} HEAD')
+    if rc != 0:
+        print('cannot create worktree', o)
+        return 2
+    missed = []
+    try:
+        for d in sorted(glob.glob(os.path.join(V, 'seeded', '*-*'))):
+            sid = os.path.basename(d)
+            if only and sid not in only:
+                continue
+            meta = json.load(open(os.path.join(d, 'meta.json')))
+            prop = meta['breaks_property']
+            sh('git checkout -- .', cwd=wt)
+            rc, o = sh(f'git apply {os.path.join(d, "patch.diff")}', cwd=wt)
+            if rc != 0:
+                print(f'{sid}: patch no longer applies to HEAD (skipped)')
+                continue
+            t0 = time.time()
+            rc, o = sh(f'./check {prop} --tier quick', cwd=V, env={'VERIF_SEED': os.environ.get('VERIF_SEED', '0'), 'VERIF_REPO': wt,
+                       'VERIF_EVIDENCE_DIR': '/tmp/seed_evidence', 'VERIF_REPLAY_DIR': '/tmp/seed_replays'})
+            print(f'{sid}: {prop} rc={rc} {time.time() - t0:.0f}s {o.strip().splitlines()[-1][:140] if o.strip() else ""}', flush=True)
+            meta.setdefault('retest', {})[prop] = {'rc': rc}
+            json.dump(meta, open(os.path.join(d, 'meta.json'), 'w'), indent=1)
+            if rc != 1:
+                missed.append(sid)
+    finally:
+        sh('git checkout -- .', cwd=wt)
+        sh(f'git -C /repo worktree remove --force {wt}')
+    print('RETEST missed:', missed)
+    return 0 if not missed else 1
+
+
 if __name__ == '__main__':
+    if sys.argv[1] == 'retest':
+        sys.exit(retest(set(sys.argv[2:]) or None))
     if sys.argv[1] == 'summary':
         summary()
         sys.exit(0)
